@@ -38,11 +38,15 @@ TInit ==
     /\ out = [w \in Workers |-> NoOut] /\ wpos = [w \in Workers |-> 0]
 
 \* the rendering of a directory value through protocol p, as alpha abstracts it
+\* (sz: the size the Gopher+ attribute listing states: every file of the universe is below 1 KB,
+\* file b is EMPTY - a set-but-falsy field must survive the cache like any other)
 ViewOf(p, d) ==
     LET present == SelectSeq(NameOrder, LAMBDA n : d[n] # "absent") IN
     [i \in 1..Len(present) |-> [n |-> present[i], v |-> d[present[i]],
-                                mt |-> IF p = "H" THEN "plain" ELSE "na"]]
-    \o <<[n |-> "s", v |-> "none", mt |-> IF p = "H" THEN "gopher-menu" ELSE "na"]>>
+                                mt |-> IF p = "H" THEN "plain" ELSE "na",
+                                sz |-> IF p = "GD" THEN "0k" ELSE "na"]]
+    \o <<[n |-> "s", v |-> "none", mt |-> IF p = "H" THEN "gopher-menu" ELSE "na",
+          sz |-> IF p = "GD" THEN "none" ELSE "na"]>>
 
 Dirs == [Names -> Versions]
 Matching(p, view) == {d \in Dirs : ViewOf(p, d) = view}
